@@ -199,3 +199,18 @@
   (concl (and (=> (>= a 0) (and (<= (* (sdiv a s) s) a) (>= (sdiv a s) 0))) (=> (< a 0) (<= (sdiv a s) 0))))
   (pattern (sdiv a s))
   (trigger sdiv))
+
+(lemma smod_def (axiom) (eager)
+  (vars (a Int) (b Int))
+  (hyp true)
+  (concl (= (smod a b) (gomod a b)))
+  (pattern (smod a b))
+  (trigger smod))
+
+; stepping by the modulus keeps a multiple a multiple
+(lemma smod_step
+  (vars (a Int) (s Int))
+  (hyp (and (>= s 1) (>= a 0) (= (smod a s) 0)))
+  (concl (= (smod (+ a s) s) 0))
+  (pattern (smod a s))
+  (trigger smod))
